@@ -7,6 +7,7 @@ import json, os, pathlib, subprocess, sys
 ROOT = pathlib.Path(__file__).resolve().parent.parent
 lane, nl, *seeds = sys.argv[1:]; lane, nl = int(lane), int(nl)
 ids = sorted(d.name for d in (ROOT / "seeded").iterdir() if d.is_dir() and not d.name.startswith("_") and os.environ.get("DET_FILTER", "") in d.name)
+if os.environ.get("DET_LIST"): ids = [i for i in ids if i in set(open(os.environ["DET_LIST"]).read().split())]
 order = list(enumerate(ids))
 if os.environ.get("DET_REVERSE"): order.reverse()      # (a second set of lanes can work from the other end)
 for k, sid in order:
